@@ -9,6 +9,7 @@ import BV.C05.Lemmas4
 import BV.C05.Lemmas5
 import BV.C05.Lemmas6
 import BV.C05.Lemmas7
+import BV.C05.Lemmas8
 import BV.Generated.C05
 namespace BV.C05
 open Treap
@@ -230,6 +231,18 @@ theorem cursor_backward {K V : Type} (cmp : K → K → Ordering) (sh : K → Bo
     bwdRun cmp sh A B =
       mergeSorted (fun x y => cmp y x) (A.reverse.filter (fun x => !sh x.1)) B.reverse :=
   Lemmas.fwdRun_eq_merge _ sh _ _
+
+/-- `cursor_backward` for the algorithm as written: `Last` followed by `Prev` until exhaustion emits
+exactly `bwdRun`. -/
+theorem cursor_backward_algorithm {K V : Type} (cmp : K → K → Ordering) (h : OrdLaws cmp)
+    (sh : K → Bool) (A B : List (K × V)) (hA : SortedKeys cmp A) (hB : SortedKeys cmp B)
+    (n : Nat) (hn : A.length + B.length ≤ n) :
+    collectBwd cmp sh A B n (mLast cmp sh A B) = bwdRun cmp sh A B := by
+  have e : mLast cmp sh A B = Lemmas.stOfB cmp sh A A.reverse B.reverse := by
+    simp only [mLast, Lemmas.stOfB, List.head?_reverse]
+  rw [e]
+  exact Lemmas.backward_run_eq h sh A B hA hB A.reverse B.reverse [] [] n (by simp) (by simp)
+    (by simpa using hn)
 
 /-- the two committed keys 1, 3 and the pending key 2 of finding F-C05-a -/
 def witnessA : List (Nat × Nat) := [(1, 10), (3, 30)]
